@@ -58,7 +58,10 @@ RULE = (
     "mutate_during_batch (also: delete the already-read file; _get_hashes / build(dir) / build_entries through a harness-owned "
     "LocalFileSystem subclass that rewrites an already-read file of the batch when a later one is "
     "opened; only later lookups of that file are judged), "
-    "planted entries (version HASH_VERSION+k, legacy entries without version), the same "
+    "planted foreign rows with a matching token under a drawn algorithm name from {md5, "
+    "md5-dos2unix, sha256, sha1, blake2b} (version HASH_VERSION+k with a placeholder value, "
+    "version-less legacy rows and current-version rows with honest values; optionally looked up at "
+    "once under the same or another algorithm), the same "
     "path on a MemoryFileSystem, State re-open; algorithm from {md5, md5-dos2unix, sha256}; stat "
     "info read by the harness at the instant of the call, or omitted. Oracle: every returned hash "
     "== hashlib (ref_hash) of the bytes on disk now and carries the requested algorithm name; "
@@ -94,6 +97,18 @@ LINKS = ["lnk-in", "sub/lnk-out"]
 TARGETS = {"sub/t-in": "p:A", "@out/t-out": "p:B", "@out/t-out2": "h:41414142"}
 N_PAD = 2600
 BOGUS = "0badc0de" * 4
+# algorithm names a foreign row (another release of the tool sharing the state directory) may carry
+ROW_ALGOS = ["md5", "md5-dos2unix", "sha256", "sha1", "blake2b"]
+HEXLEN = {"md5": 32, "md5-dos2unix": 32, "sha256": 64, "sha1": 40, "blake2b": 128}
+
+
+def bogus(name):
+    """Placeholder digest of the right length: never the digest of any generated content."""
+    return (BOGUS * 4)[: HEXLEN[name]]
+
+
+BOGUS_VALUES = {bogus(n) for n in ROW_ALGOS}
+row_algo_s = st.sampled_from(ROW_ALGOS + ["sha256", "md5-dos2unix"])
 BIG = (998, 999, 1000, 1001, 2500)
 
 slot_s = st.integers(0, 19)
@@ -400,17 +415,21 @@ class C13Machine(TraceMachine):
             self.violate(f"hit-for-missing-file:{route}",
                          f"{route} returned {hi} for {path}, which does not exist")
             return
+        if hi.value in BOGUS_VALUES:
+            self.violate(f"newer-version-entry-served:{route}",
+                         f"{route} returned {hi} for {path}: the placeholder of a row written by a "
+                         "newer format version")
+            return
         if want_name is not None and hi.name != want_name:
             self.violate(f"wrong-algorithm:{route}",
                          f"{route} asked for {want_name} on {path}, got {hi}")
             return
-        if hi.name not in ALGOS:
+        if hi.name not in ROW_ALGOS:
             self.violate(f"unknown-algorithm:{route}", f"{route} returned {hi} for {path}")
             return
         want = ref.ref_hash(ref.read(path), hi.name)
         if hi.value != want:
-            kind = "newer-version-entry-served" if hi.value == BOGUS else "stale-hash"
-            self.violate(f"{kind}:{route}",
+            self.violate(f"stale-hash:{route}",
                          f"{route} returned {hi.name}={hi.value} for {path}; the bytes on disk hash "
                          f"to {want}")
 
@@ -447,9 +466,10 @@ class C13Machine(TraceMachine):
 
         for i in range(23, N_PAD, 40):                     # written by a newer format version
             info = self.fs.info(self.pad[i])
+            rname = ROW_ALGOS[(i // 40) % len(ROW_ALGOS)]
             self.plant_raw(self.pad[i], {"version": State.HASH_VERSION + 1 + (i // 40) % 3,
                                          "checksum": _checksum(info), "size": info["size"],
-                                         "hash_info": {"md5": BOGUS}})
+                                         "hash_info": {rname: bogus(rname)}})
         for p in gone:                                     # saved, then deleted
             os.unlink(p)
         self.labels.add("padding-created")
@@ -1211,29 +1231,51 @@ class C13Machine(TraceMachine):
         self.labels.add("mut:link_retarget:" + ("relative" if relative else "absolute"))
         self.probe(lp, probe, algo)
 
-    @rule(slot=slot_s, kind=st.sampled_from(["newer", "newer", "legacy"]), bump=st.sampled_from([1, 1, 2, 7]))
-    @traced
-    def plant(self, slot, kind, bump):
-        """An entry written by another version of the tool, valid token for the file as it is."""
+    def plant_row(self, p, kind, bump, rname):
+        """A row written by another release of the tool sharing the state directory, with a token
+        that matches the file as it is: newer format version (placeholder value - must never be
+        served), version-less legacy row (honest value; its md5 key means md5-dos2unix), or a row of
+        the current version (honest value) - under any algorithm name."""
         from dvc_data.hashfile.state import _checksum
 
-        p = self.existing(slot)
-        if p is None:
-            return
         info = self.fs.info(p)
         entry = {"checksum": _checksum(info), "size": info["size"]}
         if kind == "newer":
             entry["version"] = State.HASH_VERSION + bump
-            entry["hash_info"] = {"md5": BOGUS}
-        else:  # written before versions existed: the md5 key means md5-dos2unix
-            entry["hash_info"] = {"md5": ref.ref_hash(ref.read(p), "md5-dos2unix")}
+            entry["hash_info"] = {rname: bogus(rname)}
+        elif kind == "legacy":
+            honest = "md5-dos2unix" if rname == "md5" else rname
+            entry["hash_info"] = {rname: ref.ref_hash(ref.read(p), honest)}
+        else:
+            entry["version"] = State.HASH_VERSION
+            entry["hash_info"] = {rname: ref.ref_hash(ref.read(p), rname)}
         self.plant_raw(p, entry)
-        self.labels.add(f"plant:{kind}" + (f"+{bump}" if kind == "newer" else ""))
+        self.labels.add(f"plant:{kind}:{rname}" + (f"+{bump}" if kind == "newer" else ""))
 
-    @rule(slot=slot_s, content=content_s, algo=algo_s, given=st.booleans())
+    @rule(slot=qslot_s, kind=st.sampled_from(["newer", "newer", "newer", "legacy", "current"]),
+          bump=st.sampled_from([1, 1, 2, 7]), rname=row_algo_s,
+          probe=st.sampled_from([None, None, "get", "get+info", "many", "many+infos", "hash_file",
+                                 "hash_file+info", "get_hashes", "get_hashes+walk", "build_file",
+                                 "build_dir", "build_entries", "index"]),
+          same=st.booleans(), algo=algo_s)
     @traced
-    def q_nonlocal(self, slot, content, algo, given):
-        """The same path string on a memory filesystem: never served from the local entries."""
+    def plant(self, slot, kind, bump, rname="md5", probe=None, same=False, algo=0):
+        """Plant a foreign row for a live path, then (optionally) look the path up at once, asking
+        for the row's own algorithm (same) or a drawn one."""
+        p = self.qpath(slot)
+        if p is None:
+            return
+        self.plant_row(p, kind, bump, rname)
+        if same and rname in ALGOS:
+            algo = ALGOS.index(rname)
+        self.probe(p, probe, algo)
+
+    @rule(slot=slot_s, content=content_s, algo=algo_s, given=st.booleans(),
+          row=st.sampled_from([None, "current", "current", "newer", "legacy"]), rname=row_algo_s)
+    @traced
+    def q_nonlocal(self, slot, content, algo, given, row=None, rname="md5"):
+        """The same path string on a memory filesystem: never served from the local entries (a row
+        of any kind / algorithm with a matching local token may be planted first)."""
         from dvc_objects.fs.memory import MemoryFileSystem
 
         from dvc_data.hashfile.hash import hash_file
@@ -1241,6 +1283,8 @@ class C13Machine(TraceMachine):
         p = self.existing(slot)
         if p is None:
             return
+        if row is not None:
+            self.plant_row(p, row, 1, rname)
         name = ALGOS[algo]
         data = self.bytes_for(content, p)
         mfs = MemoryFileSystem(global_store=False)
